@@ -58,6 +58,24 @@ struct BG {
     }
 };
 
+// exact-domain precondition of the properties: every path / cycle / basis sum must be exactly representable in a double.
+// Conservative test: all weights are positive multiples of their common lowest set bit L and total*(m+2)/L < 2^52.
+inline bool in_exact_domain(const GraphSpec &g) {
+    if (g.w.empty()) return true;
+    double tot = 0, lowest = 1e300;
+    for (double w : g.w) {
+        i128 x;
+        if (!(w > 0) || !to_exact(w, x)) return false;
+        tot += w;
+        int e;
+        std::frexp(w, &e);
+        double step = std::ldexp(1.0, e - 53);
+        while (std::fmod(w, step * 2) == 0 && step < w) step *= 2;   // value of the lowest set bit
+        lowest = std::min(lowest, step);
+    }
+    return tot * (double) (g.m() + 2) / lowest < std::ldexp(1.0, 52);
+}
+
 // input class helpers -----------------------------------------------------------------
 inline bool has_weight_ties(const GraphSpec &g) {
     std::set<double> s(g.w.begin(), g.w.end());
